@@ -182,10 +182,6 @@ class ConcentrationAnalysis:
 
         # Learn structural noise from collection of images
         if baseline_images is not None:
-            self.threshold_cleaning_filter = np.zeros(
-                self.base.img.shape[:2], dtype=float
-            )
-
             # Combine the results of a series of images
             for img in baseline_images:
                 probe_img = img.copy()
@@ -195,6 +191,12 @@ class ConcentrationAnalysis:
 
                 # Extract scalar version
                 monochromatic_diff = self._reduce_signal(diff)
+
+                # Start with zero threshold, compatible with the (reduced) signal
+                if self.threshold_cleaning_filter is None:
+                    self.threshold_cleaning_filter = np.zeros(
+                        monochromatic_diff.shape, dtype=float
+                    )
 
                 # Consider elementwise max
                 self.threshold_cleaning_filter = np.maximum(
